@@ -11,6 +11,7 @@ import (
 	"strings"
 	"time"
 
+	"verif/harness/c05"
 	"verif/harness/ctl"
 	"verif/harness/fakeapi"
 	"verif/harness/hx"
@@ -72,9 +73,12 @@ func oracle(prop string, x expect) func(in *ctl.Inst, r *vs.Result) []string {
 		}
 		if !o.Finished {
 			add("C12", "shutdown hangs", "a Close()/Done()/API call did not return by the end of the run (closes returned %d of %d, racing driver finished=%v, post-shutdown calls %v); blocked: %v", o.CloseReturned, o.ClosesIssued, o.RaceDone || !in.C.RaceAPI, o.PostAPI, ctl.BlockedNames(r))
-			return msgs
+			if prop == "C12" {
+				return msgs
+			}
+			// C11: what the observer saw at quiescence is still judged below
 		}
-		if lb := ctl.LibBlocked(r); len(lb) > 0 {
+		if lb := ctl.LibBlocked(r); len(lb) > 0 && o.Finished {
 			add("C12", "goroutine leak", "library goroutines alive after the root is done: %v", lb)
 		}
 		if in.C.Close.Kind != "" && !strings.HasPrefix(in.C.Close.Kind, "node:") && in.C.Close.Kind != "ctx" && o.CloseReturned != o.ClosesIssued {
@@ -93,7 +97,16 @@ func oracle(prop string, x expect) func(in *ctl.Inst, r *vs.Result) []string {
 			}
 		}
 		// cascade (observed before the final Close of the run)
-		if x.closed != "" {
+		triggered := true
+		for k := range in.C.ListFaults {
+			if f := in.C.ListFaults[k]; (f.Kind == "error" || f.Kind == "canceled") && o.Lists < k {
+				triggered = false // the failing list had not been issued when the observer looked
+			}
+		}
+		if x.closed == "*" && !o.DoneAtRead && triggered {
+			add("C11", "controller not closed", "the closing trigger has fired but the controller's Done() is open at quiescence (error %q)", o.ErrAtRead)
+		}
+		if x.closed != "" && triggered {
 			ps := make([]string, 0, len(o.NodeDone))
 			for p := range o.NodeDone {
 				ps = append(ps, p)
@@ -174,6 +187,10 @@ func scenarios(prop, tier string) []runner.Sc {
 			mk(fmt.Sprintf("root-%s/after%d", kind, k), ctl.Cfg{Tree: t, Close: ctl.CloseSpec{Kind: kind, AfterMut: k}, APICalls: prop == "C12"}, expect{closed: "*", rootDown: true})
 		}
 	}
+	// shutdown triggers racing with a list in flight: the controller may see the cancelled list result or its own shutdown request first
+	mk("root-ctx-while-list-blocks", ctl.Cfg{Tree: t, ListFaults: map[int]fakeapi.ListFault{1: {Kind: "block"}}, Close: ctl.CloseSpec{Kind: "ctx", AfterMut: -1, At: time.Second}, APICalls: prop == "C12"}, expect{closed: "*", rootDown: true})
+	mk("root-ctx-while-relist-blocks", ctl.Cfg{Tree: t, ListFaults: map[int]fakeapi.ListFault{2: {Kind: "block"}}, Close: ctl.CloseSpec{Kind: "ctx", AfterMut: -1, At: 4 * time.Second}, ReadAt: 6 * time.Second, APICalls: prop == "C12"}, expect{closed: "*", rootDown: true})
+	mk("root-list-canceled-error/list2", ctl.Cfg{Tree: t, ListFaults: map[int]fakeapi.ListFault{2: {Kind: "canceled"}}, ReadAt: 5 * time.Second, APICalls: prop == "C12"}, expect{closed: "*", rootDown: true})
 	mk("root-list-error/list2", ctl.Cfg{Tree: t, ListFaults: map[int]fakeapi.ListFault{2: {Kind: "error"}}, ReadAt: 5 * time.Second, APICalls: prop == "C12"}, expect{closed: "*", rootDown: true})
 	if prop == "C12" {
 		W := func(kind string, after int) fakeapi.WatchFault { return fakeapi.WatchFault{Kind: kind, After: after} }
@@ -184,6 +201,8 @@ func scenarios(prop, tier string) []runner.Sc {
 		mk("close-while-watch-connecting", ctl.Cfg{Tree: sm, DefaultWatch: W("block", 0), Close: ctl.CloseSpec{Kind: "close", AfterMut: 1}, APICalls: true}, expect{closed: "*", rootDown: true})
 		mk("ctx-while-watch-connecting", ctl.Cfg{Tree: sm, DefaultWatch: W("block", 0), Close: ctl.CloseSpec{Kind: "ctx", AfterMut: 1}, APICalls: true}, expect{closed: "*", rootDown: true})
 		mk("close-after-relist-while-watch-connecting", ctl.Cfg{Tree: sm, DefaultWatch: W("block", 0), Close: ctl.CloseSpec{Kind: "close", AfterMut: -1, At: 4 * time.Second}, ReadAt: 6 * time.Second, APICalls: true}, expect{closed: "*", rootDown: true})
+		mk("close-after-reconnect", ctl.Cfg{Tree: sm, WatchFaults: map[int]fakeapi.WatchFault{1: W("close", 0)}, Close: ctl.CloseSpec{Kind: "close", AfterMut: -1, At: 2500 * time.Millisecond}, ReadAt: 2800 * time.Millisecond, APICalls: true}, expect{closed: "*", rootDown: true})
+		mk("close-after-reconnect-while-connecting", ctl.Cfg{Tree: sm, WatchFaults: map[int]fakeapi.WatchFault{1: W("close", 0), 2: W("block", 0)}, Close: ctl.CloseSpec{Kind: "close", AfterMut: -1, At: 2500 * time.Millisecond}, ReadAt: 2800 * time.Millisecond, APICalls: true}, expect{closed: "*", rootDown: true})
 		mk("close-while-retry-pending", ctl.Cfg{Tree: sm, DefaultWatch: W("error", 0), Close: ctl.CloseSpec{Kind: "close", AfterMut: -1, At: 1500 * time.Millisecond}, APICalls: true}, expect{closed: "*", rootDown: true})
 		mk("close-during-relist", ctl.Cfg{Tree: sm, ListFaults: map[int]fakeapi.ListFault{2: {Latency: time.Second}}, Close: ctl.CloseSpec{Kind: "close", AfterMut: -1, At: 3600 * time.Millisecond}, ReadAt: 6 * time.Second, APICalls: true}, expect{closed: "*", rootDown: true})
 		// API calls racing with shutdown
@@ -210,6 +229,13 @@ func Property(id string) runner.Property {
 			"client List/Watch return once their context is cancelled (premise of C12; the scripted server honours it)",
 			"deviation-bounded whole-system exploration; the publisher-level trees of C05/C10/C16 and the seams of C04/C13 cover component shutdown under all interleavings",
 		},
-		Scenarios: func(tier string) []runner.Sc { return scenarios(id, tier) },
+		Scenarios: func(tier string) []runner.Sc {
+			out := scenarios(id, tier)
+			if id == "C11" {
+				// publisher-level: a leaf closed while events are flowing must not disturb its siblings (all interleavings)
+				out = append(out, c05.SiblingScenarios("C11", tier)...)
+			}
+			return out
+		},
 	}
 }
